@@ -1681,6 +1681,7 @@ impl<'a, 'b, W: Write> Serializer for &'a mut YamlSerializer<'b, W> {
             // Value position after a map key: "key: Variant:" is not valid YAML, so the
             // variant mapping starts on the next line, one level under the parent mapping.
             self.pending_space_after_colon = false;
+            self.pending_inline_map = false;
             self.newline()?;
             let base = self.current_map_depth.unwrap_or(self.depth) + 1;
             self.write_indent(base)?;
@@ -1854,6 +1855,9 @@ impl<'a, 'b, W: Write> Serializer for &'a mut YamlSerializer<'b, W> {
         if self.pending_space_after_colon {
             // Value position after a map key: start the variant mapping on the next line.
             self.pending_space_after_colon = false;
+            // A composite key's `: ` asks its value to continue on the same line; that line
+            // ends here and the hint must not reach the fields.
+            self.pending_inline_map = false;
             self.newline()?;
             // Indent the variant name one level under the parent mapping.
             let base = self.current_map_depth.unwrap_or(self.depth) + 1;
